@@ -103,6 +103,9 @@ impl<'a> ExpressionVisitor<'a> for CodeBuilder<'a> {
         value: f64,
         byte_range: Range<usize>,
     ) -> Result<Self::Item, ExpressionError<'a>> {
+        if !value.is_finite() {
+            return Err(ExpressionError::FloatNotFinite); // e.g. 1e999
+        }
         let v = ConstantValue::Float(value);
         Ok(Operand::Constant(Constant::new(v, byte_range)))
     }
